@@ -32,15 +32,22 @@ Definition opt_comment (v : V) : option (list Z) :=
   match v with VL [c] => Some (zs_of c) | _ => None end.
 
 (* ops:  [1; blk; comment; now]  add     [2; ty; now]  remove
-         [3; blk; comment option; now]  replace     [4; blk; now]  setter *)
-Definition c_step (s : cstate) (op : V) : outcome * cstate :=
+         [3; blk; comment option; now]  replace     [4; blk; now]  setter     [5]  context re-entry *)
+Definition op_of_v (op : V) : option cop :=
   let k := vint (vnth 0 op) in
-  if k =? 1 then c_add s (blk_of_v (vnth 1 op)) (zs_of (vnth 2 op)) (vint (vnth 3 op)) else
-  if k =? 2 then c_remove s (vint (vnth 1 op)) (vint (vnth 2 op)) else
-  if k =? 3 then c_replace s (blk_of_v (vnth 1 op)) (opt_comment (vnth 2 op))
-                           (vint (vnth 3 op)) (vint (vnth 3 op)) else
-  if k =? 4 then c_set s (blk_of_v (vnth 1 op)) (vint (vnth 2 op)) (vint (vnth 2 op)) else
-  (Raised EOther, s).
+  if k =? 1 then Some (OAdd (blk_of_v (vnth 1 op)) (zs_of (vnth 2 op)) (vint (vnth 3 op))) else
+  if k =? 2 then Some (ORemove (vint (vnth 1 op)) (vint (vnth 2 op))) else
+  if k =? 3 then Some (OReplace (blk_of_v (vnth 1 op)) (opt_comment (vnth 2 op))
+                                (vint (vnth 3 op)) (vint (vnth 3 op))) else
+  if k =? 4 then Some (OSet (blk_of_v (vnth 1 op)) (vint (vnth 2 op)) (vint (vnth 2 op))) else
+  if k =? 5 then Some OReopen else
+  None.
+
+Definition c_step (s : cstate) (op : V) : outcome * cstate :=
+  match op_of_v op with
+  | Some o => step s o
+  | None => (Raised EOther, s)
+  end.
 
 Definition outcome_code (o : outcome) : Z := match o with Done => 0 | Raised e => err_code e end.
 
